@@ -40,7 +40,7 @@ fn main() {
     println!("sim-hist session mode: {} histories, {} requests, {} compared with a fresh Session, {} inconclusive, {} violations", sb.histories, sb.requests, sb.compared, sb.inconclusive, sb.violations.len());
     println!("sim-hist: {} histories ({} fault-injecting), {} requests, {} compared with a fresh state, {} inconclusive, {} violations, {:.1}s", b.histories, b.faulted_histories, b.requests, b.requests_compared, b.inconclusive, b.violations.len(), wall);
     util::dump_hashes("sim-hist", &b.hashes);
-    if b.determinism_mismatches > 0 {
+    if b.determinism_mismatches > 0 && b.violations.is_empty() && sb.violations.is_empty() {
         eprintln!("HARNESS ERROR: determinism sample mismatch ({} of {})", b.determinism_mismatches, b.determinism_reexecuted);
         std::process::exit(2);
     }
